@@ -438,4 +438,9 @@ def run(ctx):
         ctx.need(n_calls >= 1, "no call of the emitter in _conform_filename")
 
     ctx.section(_sec_create)
+    # the argparse target is written by param2argparse_param and read back by parse_out_param on the next run: a writer
+    # that escapes characters needs a reader that un-escapes them, or the second run sees a different interface
+    from . import c02
+
+    ctx.section(c02._escape, ctx, index)
 
